@@ -664,6 +664,24 @@ fn case_codec(ctx: &mut Ctx, sch: &Sch, sub: u64) {
         }
         None => ctx.report.violation("model", "C09:model-encode-bytes-differ", format!("model refused canonical document: {menc}"), case.clone()),
     }
+    // the in-memory form: `node_data` of a document holding one of the values (leaf encodings,
+    // address tables of arrays / objects) against the Lean `cdAdd`, and the model's read-back
+    if let Some((f, v)) = gd.expected.iter().max_by_key(|(_, v)| matches!(v, OwnedValue::Object(_) | OwnedValue::Array(_)) as u8) {
+        let mut cv = String::new();
+        canon_value(v, &mut cv);
+        if cv.len() <= 20_000 {
+            let mut d1 = TantivyDocument::default();
+            d1.add_field_value(*f, v);
+            let m = ctx.model.ask(&format!("C09 cdoc {cv}"));
+            let parts: Vec<&str> = m.split('|').collect();
+            if parts.len() != 3 || parts[0] != hex(&d1.node_data) {
+                ctx.report.violation("model", "C09:compact-doc-bytes", format!("node_data of a TantivyDocument holding {} differs from the model's ({} bytes real)", clip(&cv), d1.node_data.len()), case.clone());
+            } else if parts[2] != cv {
+                ctx.report.violation("model", "C09:compact-doc-model-read", format!("the model reads {} back from its own node_data for {}", clip(parts[2]), clip(&cv)), case.clone());
+            }
+            ctx.report.count("checked:compact-doc-node-data");
+        }
+    }
     if ctx.report.samples.len() < 2 && nested {
         ctx.report.sample(json!({"kind":"codec","stored_view": clip(&expected), "bytes": bytes.len()}));
     }
@@ -1027,6 +1045,18 @@ fn case_store(ctx: &mut Ctx, k: Consts, sub: u64) {
             ctx.report.count("store-skip-index-compared");
         }
     }
+    // lz4 / zstd: every compressed block starts with the frame the model puts around the raw codec
+    if !matches!(comp, Compressor::None) {
+        for c in cps.iter().take(120) {
+            let lens: Vec<usize> = (c.0..c.1).map(|d| docs[d as usize].len()).collect();
+            let mf = ctx.model.ask(&format!("C09 frame {}", nat_list(&lens)));
+            if c.3 - c.2 < 4 || mf != hex(&file[c.2..c.2 + 4]) {
+                ctx.report.violation("model", "C09:block-frame", format!("{} block of docs {}..{}: header {} but the model's frame is {mf}", compressor_name(&comp), c.0, c.1, hex(&file[c.2..(c.2 + 4).min(c.3)])), case.clone());
+                break;
+            }
+        }
+        ctx.report.count("store-block-frame-compared");
+    }
     // model correspondence on whole files (compressor none)
     let total: usize = file.len();
     if matches!(comp, Compressor::None) && total <= 300_000 {
@@ -1067,6 +1097,27 @@ fn case_store(ctx: &mut Ctx, k: Consts, sub: u64) {
             ctx.report.violation("model", "C09:checkpoints", "checkpoints decoded by the model differ from block_checkpoints()".into(), case.clone());
         }
         ctx.report.count("store-model-whole-file");
+        // a mix of iterations and fetches on ONE reader: cache statistics against the model's
+        // `runOps` (iter_raw reads its blocks through the same LRU)
+        if total <= 60_000 {
+            let r4 = open_real(&file, cache).unwrap();
+            let mut spec: Vec<String> = vec![];
+            let bits: String = (0..n).map(|i| if i % 3 == 1 { '0' } else { '1' }).collect();
+            let ab = make_alive_bitset(&(0..n).map(|i| i % 3 != 1).collect::<Vec<_>>());
+            for step in 0..6 {
+                match (step + rng.below(2)) % 3 {
+                    0 => { let _ = tantivy::verif::c09_iter_raw(&r4, None); spec.push("iall".into()); }
+                    1 => { let d = rng.below(n as u64 + 1) as u32; let _ = real_get_bytes(&r4, d); spec.push(format!("g{d}")); }
+                    _ => { let _ = tantivy::verif::c09_iter_raw(&r4, Some(&ab)); spec.push(format!("i{bits}")); }
+                }
+            }
+            let (h, m, e) = tantivy::verif::c09_cache_stats(&r4);
+            let mo = ctx.model.ask(&format!("C09 ops {cache} {} {}", hex(&file), spec.join(";")));
+            if mo != format!("{h}/{m}/{e}/1") {
+                ctx.report.violation("model", "C09:cache-stats-mixed", format!("iterations and fetches on one reader (capacity {cache}): CacheStats {h}/{m}/{e}, model {mo} (last field: cached answers = uncached)"), case.clone());
+            }
+            ctx.report.count("store-mixed-ops-compared");
+        }
     }
     if ctx.report.samples.len() < 4 && cps.len() > 8 {
         ctx.report.sample(json!({"kind":"store","docs":n,"block_size":bs,"compressor":compressor_name(&comp),"dedicated_thread":thread,"blocks":cps.len(),"skip_layers":layers,"cache":cache}));
@@ -2462,6 +2513,60 @@ fn case_json_docs(ctx: &mut Ctx, sch: &Sch, k: Consts, sub: u64) {
     }
 }
 
+/// byte strings that are and are not UTF-8, stored as a text value by the Lean encoder: the real
+/// deserializer must accept exactly those the model's `utf8Valid` accepts, and return them unchanged
+fn case_utf8(ctx: &mut Ctx) {
+    let mut samples: Vec<Vec<u8>> = vec![
+        vec![], b"plain".to_vec(), "Δ日🙂".as_bytes().to_vec(),
+        vec![0xC0, 0x80], vec![0xC1, 0xBF], vec![0xC2, 0x80], vec![0xDF, 0xBF], vec![0xDF], vec![0x80], vec![0xBF, 0x41],
+        vec![0xE0, 0x80, 0x80], vec![0xE0, 0x9F, 0xBF], vec![0xE0, 0xA0, 0x80], vec![0xED, 0x9F, 0xBF], vec![0xED, 0xA0, 0x80],
+        vec![0xEE, 0x80, 0x80], vec![0xEF, 0xBF, 0xBF], vec![0xE6, 0x97], vec![0xE6, 0x41, 0x41],
+        vec![0xF0, 0x8F, 0xBF, 0xBF], vec![0xF0, 0x90, 0x80, 0x80], vec![0xF4, 0x8F, 0xBF, 0xBF], vec![0xF4, 0x90, 0x80, 0x80],
+        vec![0xF5, 0x80, 0x80, 0x80], vec![0xF0, 0x9F, 0x99], vec![0xFF], vec![0xFE, 0xFF],
+    ];
+    for _ in 0..60 {
+        let n = 1 + ctx.rng.usize_below(6);
+        let mut b = ctx.rng.bytes(n);
+        if ctx.rng.chance(1, 2) {
+            b[0] |= 0xC0; // more multi-byte lead bytes than uniform noise would give
+        }
+        let mut v = "a é".as_bytes().to_vec();
+        v.extend(b);
+        samples.push(v);
+    }
+    for sample in samples {
+        let case = json!({"kind": "utf8", "sub": "0"});
+        ctx.report.case(&format!("utf8|{}", hex(&sample)), true);
+        let canon = format!("3=S{}", hex(&sample));
+        let bytes = match unhex(&ctx.model.ask(&format!("C09 docenc {canon}"))) {
+            Some(b) => b,
+            None => continue,
+        };
+        let std_ok = std::str::from_utf8(&sample).is_ok();
+        let real = catch_unwind(AssertUnwindSafe(|| tantivy::verif::c09_deserialize_doc(&bytes).map(|d| canon_doc(&d))));
+        let model = ctx.model.ask(&format!("C09 docdecs {}", hex(&bytes)));
+        match real {
+            Ok(Ok(got)) => {
+                if !std_ok || got != canon {
+                    ctx.report.violation("oracle", "C09:utf8-accepted", format!("the deserializer returns {} for the text bytes {} (valid UTF-8: {std_ok})", clip(&got), hex(&sample)), case.clone());
+                }
+                if model != canon {
+                    ctx.report.violation("model", "C09:utf8-model", format!("text bytes {}: accepted by the real deserializer, model says {model}", hex(&sample)), case);
+                }
+            }
+            Ok(Err(_)) => {
+                if std_ok {
+                    ctx.report.violation("oracle", "C09:utf8-rejected", format!("the deserializer rejects the valid UTF-8 text {}", hex(&sample)), case.clone());
+                }
+                if model != "err" {
+                    ctx.report.violation("model", "C09:utf8-model", format!("text bytes {}: rejected by the real deserializer, model says {model}", hex(&sample)), case);
+                }
+            }
+            Err(_) => ctx.report.violation("oracle", "C09:codec-panic", format!("deserializing the text bytes {} panicked", hex(&sample)), case),
+        }
+    }
+}
+
 /// the number classification alone: `OwnedValue::from(serde_json::Value)` against the rule
 /// (oracle) and against the Lean `jsonNumber` (model)
 fn case_json_numbers(ctx: &mut Ctx) {
@@ -2496,6 +2601,185 @@ fn case_json_numbers(ctx: &mut Ctx) {
     }
 }
 
+/// merge of segments whose doc stores were written with DIFFERENT compressors (each source is an
+/// index of its own, the target has its own `docstore_compression`): a store may only be stacked
+/// block-wise if its codec is the target's; otherwise it must be re-compressed
+fn case_mixed_codec_merge(ctx: &mut Ctx, sch: &Sch, k: Consts, sub: u64) {
+    let mut rng = Rng::new(sub);
+    let case = json!({"kind": "mixed", "sub": sub.to_string()});
+    let comps = [Compressor::None, Compressor::Lz4, Compressor::Zstd(ZstdCompressor::default())];
+    let target = IndexSettings {
+        docstore_compression: *rng.pick(&comps),
+        docstore_blocksize: *rng.pick(&[1usize, 16, 64, 300, k.default_bs]),
+        docstore_compress_dedicated_thread: rng.chance(1, 2),
+        ..Default::default()
+    };
+    let nsrc = 1 + rng.usize_below(3);
+    let mut differing = 0usize;
+    let mut stackable_other_codec = 0usize;
+    let res = catch_unwind(AssertUnwindSafe(|| -> tantivy::Result<(Index, Expect, Vec<bool>)> {
+        let mut exp = Expect { canon: vec![], docs: vec![] };
+        let mut deleted: Vec<bool> = vec![];
+        let mut segments = vec![];
+        let mut keep_alive = vec![];
+        for _ in 0..nsrc {
+            let comp = *rng.pick(&comps);
+            let settings = IndexSettings {
+                docstore_compression: comp,
+                // small blocks: enough of them for the stacking shortcut
+                docstore_blocksize: *rng.pick(&[0usize, 1, 16, 40, 120]),
+                docstore_compress_dedicated_thread: rng.chance(1, 2),
+                ..Default::default()
+            };
+            let index = Index::create(RamDirectory::create(), sch.schema.clone(), settings)?;
+            let mut w: IndexWriter = index.writer_with_num_threads(1, 30_000_000)?;
+            w.set_merge_policy(Box::new(NoMergePolicy));
+            let n = *rng.pick(&[1usize, 5, 6, 7, 12, 30]);
+            let first = exp.canon.len();
+            for _ in 0..n {
+                let prof = match rng.below(5) { 0 => DocProfile::ManyValues, 1 => DocProfile::Mixed, 2 => DocProfile::Json, _ => DocProfile::Small };
+                let gd = gen_doc(&mut rng, sch, prof);
+                let id = exp.canon.len();
+                let mut doc = to_tantivy_doc(&gd.added);
+                doc.add_u64(sch.id, id as u64);
+                doc.add_u64(sch.sk, rng.below(50));
+                w.add_document(doc)?;
+                exp.canon.push(canon_fields(&gd.expected));
+                exp.docs.push(gd.expected);
+                deleted.push(false);
+            }
+            w.commit()?;
+            let with_deletes = rng.chance(1, 4) && n > 1;
+            if with_deletes {
+                w.delete_term(Term::from_field_u64(sch.id, first as u64));
+                deleted[first] = true;
+                w.commit()?;
+            }
+            drop(w);
+            let segs = index.searchable_segments()?;
+            if compressor_name(&comp) != compressor_name(&target.docstore_compression) {
+                differing += 1;
+                if !with_deletes {
+                    if let Some(seg) = segs.first() {
+                        let store = seg.open_read(SegmentComponent::Store)?.read_bytes()?.as_slice().to_vec();
+                        if let Ok(r) = open_real(&store, 1) {
+                            if tantivy::verif::c09_block_checkpoints(&r).len() >= k.min_stack_blocks {
+                                stackable_other_codec += 1;
+                            }
+                        }
+                    }
+                }
+            }
+            segments.extend(segs);
+            keep_alive.push(index);
+        }
+        let filters = segments.iter().map(|_| None).collect::<Vec<_>>();
+        let merged = tantivy::indexer::merge_filtered_segments(&segments, target.clone(), filters, RamDirectory::create())?;
+        Ok((merged, exp, deleted))
+    }));
+    ctx.report.case(&format!("mixed|{sub}"), true);
+    ctx.report.count(if differing > 0 { "mixed-codec-merge:source-codec-differs" } else { "mixed-codec-merge:same-codec" });
+    if stackable_other_codec > 0 {
+        ctx.report.count("mixed-codec-merge:stackable-source-with-other-codec");
+    }
+    match res {
+        Ok(Ok((merged, exp, deleted))) => {
+            check_searcher(ctx, &mut rng, &merged, sch, &exp, &deleted, "after a merge of stores written with different compressors", &case);
+        }
+        Ok(Err(e)) => ctx.report.violation("oracle", "C09:mixed-codec-merge-error", format!("merge of segments with different docstore_compression failed: {e}"), case),
+        Err(_) => ctx.report.violation("oracle", "C09:mixed-codec-merge-panic", "merge of segments with different docstore_compression panicked".into(), case),
+    }
+}
+
+/// the same index, but `docstore_compression` (and the block size) is changed between writing the
+/// segments and merging them (`Index::settings_mut`): the merge writes with the new codec and may
+/// only stack blocks of segments written with that very codec
+fn case_codec_switch(ctx: &mut Ctx, sch: &Sch, k: Consts, sub: u64) {
+    let mut rng = Rng::new(sub);
+    let case = json!({"kind": "codecswitch", "sub": sub.to_string()});
+    let comps = [Compressor::None, Compressor::Lz4, Compressor::Zstd(ZstdCompressor::default())];
+    let first = *rng.pick(&comps);
+    let second = *rng.pick(&comps);
+    let bs1 = *rng.pick(&[0usize, 1, 16, 40, 120, 4096]);
+    let bs2 = *rng.pick(&[1usize, 16, 300, k.default_bs]);
+    let nseg = 1 + rng.usize_below(3);
+    let with_deletes = rng.chance(1, 4);
+    let mut stackable = 0usize;
+    let res = catch_unwind(AssertUnwindSafe(|| -> tantivy::Result<Option<(Index, Expect, Vec<bool>)>> {
+        let settings = IndexSettings { docstore_compression: first, docstore_blocksize: bs1, docstore_compress_dedicated_thread: rng.chance(1, 2), ..Default::default() };
+        let index = Index::create(RamDirectory::create(), sch.schema.clone(), settings)?;
+        let mut exp = Expect { canon: vec![], docs: vec![] };
+        let mut deleted: Vec<bool> = vec![];
+        {
+            let mut w: IndexWriter = index.writer_with_num_threads(1, 30_000_000)?;
+            w.set_merge_policy(Box::new(NoMergePolicy));
+            for _ in 0..nseg {
+                // 40 documents of a few KB fill many default-sized blocks; small blocks need fewer
+                let n = if bs1 >= 4096 { 40 } else { *rng.pick(&[6usize, 7, 12, 30]) };
+                for _ in 0..n {
+                    let gd = if bs1 >= 4096 {
+                        let f = &sch.fields[3];
+                        let v = OwnedValue::Str(gen_text(&mut rng, false).repeat(1 + rng.usize_below(3)) + &"x".repeat(4000));
+                        GenDoc { added: vec![(f.field, v.clone())], expected: vec![(f.field, v)] }
+                    } else {
+                        let prof = match rng.below(4) { 0 => DocProfile::ManyValues, 1 => DocProfile::Json, _ => DocProfile::Small };
+                        gen_doc(&mut rng, sch, prof)
+                    };
+                    let id = exp.canon.len();
+                    let mut doc = to_tantivy_doc(&gd.added);
+                    doc.add_u64(sch.id, id as u64);
+                    doc.add_u64(sch.sk, rng.below(50));
+                    w.add_document(doc)?;
+                    exp.canon.push(canon_fields(&gd.expected));
+                    exp.docs.push(gd.expected);
+                    deleted.push(false);
+                }
+                w.commit()?;
+            }
+            if with_deletes {
+                w.delete_term(Term::from_field_u64(sch.id, 0));
+                deleted[0] = true;
+                w.commit()?;
+            }
+        }
+        if deleted.iter().all(|d| *d) {
+            return Ok(None);
+        }
+        for seg in index.searchable_segments()? {
+            let store = seg.open_read(SegmentComponent::Store)?.read_bytes()?.as_slice().to_vec();
+            if let Ok(r) = open_real(&store, 1) {
+                if tantivy::verif::c09_block_checkpoints(&r).len() >= k.min_stack_blocks && !seg.meta().has_deletes() {
+                    stackable += 1;
+                }
+            }
+        }
+        // the user changes the compression of the index, then merges with a new writer
+        let mut index2 = index.clone();
+        index2.settings_mut().docstore_compression = second;
+        index2.settings_mut().docstore_blocksize = bs2;
+        let mut w: IndexWriter = index2.writer_with_num_threads(1, 30_000_000)?;
+        w.set_merge_policy(Box::new(NoMergePolicy));
+        let ids = index2.searchable_segment_ids()?;
+        w.merge(&ids).wait()?;
+        drop(w);
+        Ok(Some((index2, exp, deleted)))
+    }));
+    ctx.report.case(&format!("codecswitch|{sub}"), true);
+    let differs = compressor_name(&first) != compressor_name(&second);
+    ctx.report.count(&format!("codec-switch:{}->{}", compressor_name(&first), compressor_name(&second)));
+    if differs && stackable > 0 {
+        ctx.report.count("codec-switch:stackable-segment-under-another-codec");
+    }
+    match res {
+        Ok(Ok(Some((index2, exp, deleted)))) => {
+            check_searcher(ctx, &mut rng, &index2, sch, &exp, &deleted, &format!("after changing docstore_compression {} -> {} and merging", compressor_name(&first), compressor_name(&second)), &case);
+        }
+        Ok(Ok(None)) => {}
+        Ok(Err(e)) => ctx.report.violation("oracle", "C09:codec-switch-merge-error", format!("merge after changing docstore_compression {} -> {} failed: {e}", compressor_name(&first), compressor_name(&second)), case),
+        Err(_) => ctx.report.violation("oracle", "C09:codec-switch-merge-panic", "merge after changing docstore_compression panicked".into(), case),
+    }
+}
+
 // ------------------------------------------------------------------------------------------
 // phases, child processes
 // ------------------------------------------------------------------------------------------
@@ -2507,7 +2791,7 @@ fn plan(seed: u64, thorough: bool) -> Vec<(&'static str, Vec<(&'static str, u64)
         let mut r = Rng::new(seed ^ crate::report::fnv(name.as_bytes()));
         (0..n).map(|_| r.next_u64()).collect()
     };
-    let mut fixed: Vec<(&'static str, u64)> = vec![("vint", 0), ("vint32", 0), ("empty", 0), ("jsonnum", 0)];
+    let mut fixed: Vec<(&'static str, u64)> = vec![("vint", 0), ("vint32", 0), ("empty", 0), ("jsonnum", 0), ("utf8", 0)];
     for depth in [1u64, 2, 64, 127, 128, 300] {
         fixed.push(("deep", depth));
     }
@@ -2519,14 +2803,16 @@ fn plan(seed: u64, thorough: bool) -> Vec<(&'static str, Vec<(&'static str, u64)
         ("fixed", fixed),
         ("thresholds", thr),
         ("thridx", vec![("thridx", 0)]),
-        ("codec", subs("codec", b(700, 15000)).into_iter().map(|s| ("codec", s)).collect()),
-        ("store", subs("store", b(320, 6000)).into_iter().map(|s| ("store", s)).collect()),
-        ("stack", subs("stack", b(80, 1500)).into_iter().map(|s| ("stack", s)).collect()),
-        ("index", subs("index", b(70, 2500)).into_iter().map(|s| ("index", s)).collect()),
-        ("index2", subs("index2", b(12, 400)).into_iter().map(|s| ("index2", s)).collect()),
-        ("filtered", subs("filtered", b(45, 1500)).into_iter().map(|s| ("filtered", s)).collect()),
+        ("codec", subs("codec", b(700, 5000)).into_iter().map(|s| ("codec", s)).collect()),
+        ("store", subs("store", b(320, 2500)).into_iter().map(|s| ("store", s)).collect()),
+        ("stack", subs("stack", b(80, 600)).into_iter().map(|s| ("stack", s)).collect()),
+        ("index", subs("index", b(70, 520)).into_iter().map(|s| ("index", s)).collect()),
+        ("index2", subs("index2", b(12, 120)).into_iter().map(|s| ("index2", s)).collect()),
+        ("filtered", subs("filtered", b(45, 380)).into_iter().map(|s| ("filtered", s)).collect()),
         ("v1", subs("v1", b(6, 40)).into_iter().map(|s| ("v1", s)).collect()),
-        ("jsondoc", subs("jsondoc", b(60, 1500)).into_iter().map(|s| ("jsondoc", s)).collect()),
+        ("jsondoc", subs("jsondoc", b(60, 600)).into_iter().map(|s| ("jsondoc", s)).collect()),
+        ("mixed", subs("mixed", b(40, 300)).into_iter().map(|s| ("mixed", s)).collect()),
+        ("codecswitch", subs("codecswitch", b(30, 200)).into_iter().map(|s| ("codecswitch", s)).collect()),
     ]
 }
 
@@ -2547,6 +2833,9 @@ fn run_case(ctx: &mut Ctx, sch: &Sch, k: Consts, kind: &str, sub: u64) {
         "v1" => case_v1_store(ctx, sch, sub),
         "jsondoc" => case_json_docs(ctx, sch, k, sub),
         "jsonnum" => case_json_numbers(ctx),
+        "utf8" => case_utf8(ctx),
+        "mixed" => case_mixed_codec_merge(ctx, sch, k, sub),
+        "codecswitch" => case_codec_switch(ctx, sch, k, sub),
         other => ctx.report.notes.push(format!("unknown case kind {other}")),
     }
 }
@@ -2677,6 +2966,10 @@ pub fn run(ctx: &mut Ctx) {
         "model iterRaw on real files with deletes = live documents".into(),
         "version-1 doc store: model deserializeDocV 1 = what the real reader returns before a merge".into(),
         "JSON number classification: OwnedValue::from(serde_json::Value) = model jsonNumber".into(),
+        "TantivyDocument node_data (leaf encodings, address tables) = model cdAdd, byte for byte".into(),
+        "lz4 / zstd blocks: 4-byte length frame = model framed codec header".into(),
+        "UTF-8 check of stored strings: real deserializer accepts exactly what the model's utf8Valid accepts".into(),
+        "iter_raw + get on one reader: CacheStats = model runOps (iteration through the cache)".into(),
     ];
     // ---- child: one phase, or one replayed case, in this process -------------------------------
     if let Ok(phase) = std::env::var("TVH_C09_CHILD") {
